@@ -21,7 +21,9 @@ HTML_NS = trees.HTML_NS
 HEAD = ["<meta charset=windows-1251>", '<meta http-equiv="Content-Type" content="text/html; charset=windows-1251">',
         '<meta content="text/html; charset=windows-1251">', "<meta name=x content=y>", "<title>é</title>",
         '<script>"<meta charset=koi8-r>"</script>', "<!--c-->", "<style>" + "a{}" * 370 + "</style>",
-        '<meta http-equiv=refresh content="1; url=x">', "<meta CHARSET=old>"]
+        '<meta http-equiv=refresh content="1; url=x">', "<meta CHARSET=old>",
+        # a Content-Type pragma that declares no charset at all / an empty one: the rewrite must still produce a declaration
+        '<meta http-equiv=Content-Type content="text/html">', '<meta content="a; CHARSET = " http-equiv=content-type>']
 BODIES = ["<p title=a>x</p>", "<p title=é>é x</p>", "<p title=😀>😀</p><meta charset=iso-8859-2>"]
 
 
@@ -113,10 +115,13 @@ def tree_diff(a, b):
 
 
 def _shard(args):
-    enc, D = args
+    enc, D = args[:2]
+    first = args[2] if len(args) > 2 else None        # None: all words; -1: the empty word; k: words starting with letter k
     res = {"evals": 0, "viol": {}, "docs": 0}
     for n in range(0, D + 1):
         for w in itertools.product(range(len(HEAD)), repeat=n):
+            if first is not None and ((first == -1) != (n == 0) or (n > 0 and w[0] != first)):
+                continue
             for b in range(len(BODIES)):
                 text = doc_text(w, b)
                 res["docs"] += 1
@@ -145,8 +150,19 @@ def run(run):
     quick = run.tier == "quick"
     D = 3 if quick else 4
     encs = encodings()
+    # head words of full depth for one encoding of each kind (UTF-8, single-byte, the multi-byte families, UTF-16); the
+    # head shape and the encoding interact only through the declaration text, so the other labels get all heads of
+    # length <= 1 (2)
+    core = ["utf-8", "koi8-r", "windows-1252", "iso-8859-2", "shift_jis", "euc-jp", "gb18030", "big5", "utf-16le", "utf-16be"]
+    shards = []
+    for e in encs:
+        if e in core:
+            shards += [(e, D, k) for k in range(-1, len(HEAD))]
+        else:
+            shards.append((e, D - 2))
+    encs = [sh[0] for sh in shards]
     classes = {}
-    for enc, r in zip(encs, engine.pmap(_shard, [(e, D) for e in encs], chunksize=1)):
+    for enc, r in zip(encs, engine.pmap(_shard, shards, chunksize=1)):
         run.add("evaluations", r["evals"])
         run.add("documents_x_encodings", r["docs"])
         for cls, (text, omit, j) in r["viol"].items():
@@ -157,7 +173,8 @@ def run(run):
         run.violation(v)
     run.set("encodings", encs)
     run.set("distinct_nontrivial", run.cov.get("documents_x_encodings", 0))
-    run.set("rule", "all head words <= %d over %d head letters x %d bodies x %d output encodings (every WHATWG encoding name that is also a Python codec "
+    run.set("core_encodings", core)
+    run.set("rule", "all head words <= %d (core encodings; <= D-2 for the other labels) over %d head letters x %d bodies x %d output encodings (every WHATWG encoding name that is also a Python codec "
             "name) x omit_optional_tags on/off; each case: serialize with the encoding, parse the bytes without hints, compare documentEncoding and tree; "
             "distinct = (document, encoding) pairs" % (D, len(HEAD), len(BODIES), len(encs)))
     run.set("exhaustive", True)
